@@ -28,6 +28,10 @@ class _Return(Exception):
         self.v = v
 
 
+class Yielded(Exception):
+    """evaluation reached a `yield` (used to evaluate the set-up half of a context manager)"""
+
+
 class Opaque:
     def __init__(self, name):
         self.name = name
@@ -87,6 +91,7 @@ class FDE:
         self.max_depth = max_depth
         self.effects = []
         self.depth = 0
+        self.class_objs = {}     # (class name, attribute) -> Obj : class-level objects such as thread-local slots
 
     # -- public --------------------------------------------------------------------------
     def call(self, fi, *args, **kwargs):
@@ -159,8 +164,16 @@ class FDE:
                     e = s.exc.func if isinstance(s.exc, ast.Call) else s.exc
                     name = unparse(e).split('.')[-1]
                 raise Raised(name)
+            elif isinstance(s, ast.Expr) and isinstance(s.value, (ast.Yield, ast.YieldFrom)):
+                raise Yielded()
             elif isinstance(s, ast.Expr):
                 self._ev(s.value, env, fi)
+            elif isinstance(s, ast.Try):
+                # body only: handlers are not modelled (rules using this evaluate exception-free fragments);
+                # the finally block runs on normal completion, not when the evaluation stops at a yield
+                self._run(s.body, env, fi)
+                self._run(s.orelse, env, fi)
+                self._run(s.finalbody, env, fi)
             elif isinstance(s, ast.Pass):
                 pass
             elif isinstance(s, (ast.ImportFrom, ast.Import)):
@@ -278,11 +291,15 @@ class FDE:
                 return ('class', e.id)
             raise Unsupported('free name %s in %s' % (e.id, fi.qualname if fi else '?'))
         if isinstance(e, ast.Attribute):
+            if isinstance(e.value, ast.Name) and (e.value.id, e.attr) in self.class_objs:
+                return self.class_objs[(e.value.id, e.attr)]
             ok, v = fold_const(self.repo, e)
             if ok:
                 return v
             base = self._ev(e.value, env, fi)
             if isinstance(base, tuple) and base and base[0] == 'class':
+                if (base[1], e.attr) in self.class_objs:
+                    return self.class_objs[(base[1], e.attr)]
                 if e.attr == 'ayns':
                     return ('classayns', base[1])
                 t = self.repo.resolve(base[1], e.attr)
